@@ -102,7 +102,16 @@ func (c *FnCtx) declsOnly() string {
 
 func (c *FnCtx) assertsOnly(o *Oblig, negate bool) string {
 	var sb strings.Builder
+	var anc map[int]bool
+	if o.Block != nil {
+		anc = c.ancestorsOf(o.Block)
+	}
 	for i := 0; i < o.Prefix && i < len(c.ctx); i++ {
+		// context slicing: facts recorded in blocks that cannot reach the obligation's block
+		// are irrelevant (they are guarded by the reachability of those blocks)
+		if anc != nil && i < len(c.ctxBlock) && c.ctxBlock[i] >= 0 && !anc[c.ctxBlock[i]] {
+			continue
+		}
 		sb.WriteString("(assert ")
 		sb.WriteString(c.ctx[i])
 		sb.WriteString(")\n")
